@@ -634,6 +634,30 @@ func missingKey(c *an.Ctx, r *runnerRoles, cc *ssa.Function, rule string) {
 	if n == 0 {
 		c.Und(rule, an.Short(rs)+":Execute", rs.Pos(), "RenderString executes no template")
 	}
+	// … and nothing relaxes it again: every Template.Option under RenderString sets only missingkey=error
+	// (Option mutates the template it is called on, whatever is done with its result)
+	relaxed := false
+	for f := range p.Reach([]*ssa.Function{rs}, func(e an.CallEdge) bool { return an.Outer(e.Callee).Pkg == rs.Pkg }) {
+		for _, ci := range an.CallsIn(f, "(*text/template.Template).Option") {
+			for _, a := range ci.Common().Args[1:] {
+				for _, e := range an.VariadicElems(a) {
+					k, isK := an.ConstString(e)
+					if !isK {
+						relaxed = true
+						c.Bad(rule, an.Short(f)+":Option(?)", ci.Pos(), "a template option that is not a constant is applied under RenderString: missingkey may be relaxed")
+						continue
+					}
+					if strings.HasPrefix(k, "missingkey=") && k != "missingkey=error" {
+						relaxed = true
+						c.Bad(rule, an.Short(f)+":Option("+k+")", ci.Pos(), "%s switches the template to %s: an undefined variable anywhere in that template renders as <no value> (or empty) instead of failing the command", an.Short(f), k)
+					}
+				}
+			}
+		}
+	}
+	if !relaxed {
+		c.OK(rule, an.Short(rs)+":missingkey-not-relaxed", rs.Pos(), "no Template.Option under RenderString sets another missingkey mode")
+	}
 	// Executor.Execute: render dominates the interpreter call, error returns first
 	er := resolveExec(p)
 	ex := er.ex
